@@ -139,6 +139,10 @@ impl std::error::Error for Zip321Error {
     }
 }
 
+/// Parameter names that are defined by ZIP 321 and must not appear in the `other_params` of a
+/// [`Payment`].
+const RESERVED_PARAM_NAMES: &[&str] = &["address", "amount", "memo", "label", "message"];
+
 /// Converts a [`MemoBytes`] value to a ZIP 321 compatible base64-encoded string.
 ///
 /// [`MemoBytes`]: zcash_protocol::memo::MemoBytes
@@ -302,22 +306,29 @@ impl TransactionRequest {
             return Err(Zip321Error::TooManyPayments(payments.len()));
         }
 
+        // The name of an additional parameter must be a ZIP 321 `paramname` without an index
+        // suffix, and must not be one of the names that ZIP 321 itself defines. Otherwise the
+        // rendered URI parses, but to a different request: `("label", "x")` is read back as
+        // the label of the payment, and `("a.1", "x")` as a parameter of payment 1.
+        for (i, payment) in payments.iter().enumerate() {
+            for (name, _) in payment.other_params() {
+                if RESERVED_PARAM_NAMES.contains(&name.as_str())
+                    || !matches!(parse::indexed_name(name), Ok(("", (_, None))))
+                {
+                    return Err(Zip321Error::ParseError(format!(
+                        "Payment {i} has an additional parameter with the invalid name {name}"
+                    )));
+                }
+            }
+        }
+
         let request = TransactionRequest {
             payments: payments.into_iter().enumerate().collect(),
         };
 
         // Enforce validity requirements.
         if !request.payments.is_empty() {
-            let parsed = TransactionRequest::from_uri(&request.to_uri())?;
-
-            // The rendered URI must denote this request. A payment whose `other_params`
-            // reuse a name that ZIP 321 reserves (e.g. "label") or that carries an index
-            // suffix renders to a URI that parses, but to a different request.
-            if parsed != request {
-                return Err(Zip321Error::ParseError(
-                    "Payment request is not preserved by its URI encoding".to_string(),
-                ));
-            }
+            TransactionRequest::from_uri(&request.to_uri())?;
         }
 
         Ok(request)
@@ -881,7 +892,7 @@ pub mod testing {
     use zcash_protocol::value::Zatoshis;
     use zcash_protocol::{consensus::NetworkType, value::testing::arb_zatoshis};
 
-    use super::{MemoBytes, Payment, TransactionRequest};
+    use super::{MemoBytes, Payment, RESERVED_PARAM_NAMES, TransactionRequest};
     pub const VALID_PARAMNAME: &str = "[a-zA-Z][a-zA-Z0-9+-]*";
 
     prop_compose! {
@@ -889,9 +900,6 @@ pub mod testing {
             MemoBytes::from_bytes(&bytes).unwrap()
         }
     }
-
-    /// Parameter names that are reserved by ZIP 321 and must not appear in `other_params`.
-    const RESERVED_PARAM_NAMES: &[&str] = &["address", "amount", "memo", "label", "message"];
 
     prop_compose! {
         pub fn arb_zip321_payment(network: NetworkType)(
